@@ -25,6 +25,14 @@ def make_inputs(rng, kind):
         for _ in range(3):
             out.append(chunkgen.gen_apng(rng)[0])
         return out
+    if kind == "big":
+        # one very large (64 MiB of raw data and a little more) but trivially compressible image: size-dependent code paths
+        import struct
+        import zlib
+        import pnggen as pg
+        w, h = 8192, 8200
+        raw = zlib.compress(bytes((w + 1) * h), 1)
+        return [pg.SIG + pg.chunk("IHDR", struct.pack(">IIBBBBB", w, h, 8, 0, 0, 0, 0)) + pg.chunk("IDAT", raw) + pg.chunk("IEND", b"")]
     for (ct, d, cls) in [(2, 8, "gray"), (6, 8, "opaque"), (3, 8, "random"), (0, 16, "hilo"), (6, 16, "binalpha"), (3, 4, "fewcolors")]:
         w, h = rng.choice([(20, 14), (9, 31), (33, 8)])
         tok, _ = imggen.gen(rng, ct, d, w, h, rng.random() < 0.3, cls, "none")
@@ -45,21 +53,23 @@ def run(rep):
     if quick:
         threads = [1, 2, 3, 16]
         concs = [1, 3, 9]
-        optsets = [("-", "png"), ("fast=0,filters=0+1+4+9", "png"), ("-", "apng"), ("timeout=0", "png"), ("fast=0,filters=0+1+4+9,timeout=0", "apng")]
+        optsets = [("-", "png"), ("fast=0,filters=0+1+4+9", "png"), ("-", "apng"), ("timeout=0", "png"), ("fast=0,filters=0+1+4+9,timeout=0", "apng"),
+                   ("zopfli=1,fast=0,filters=0+5", "png")]
         seeds = [0, 1 + rng.randrange(1 << 30)]
         watchdog = 60
     else:
         threads = [1, 2, 3, 4, 5, 8, 12, 16]
         concs = [1, 2, 5, 16, 64]
         optsets = [("-", "png"), ("fast=0,filters=0+1+4+9", "png"), ("preset=5", "png"), ("-", "apng"), ("fast=0,filters=0+5", "apng"),
-                   ("timeout=0", "png"), ("fast=0,filters=0+1+4+9,timeout=0", "png"), ("timeout=0", "apng")]
+                   ("timeout=0", "png"), ("fast=0,filters=0+1+4+9,timeout=0", "png"), ("timeout=0", "apng"),
+                   ("zopfli=1,fast=0,filters=0+5", "png"), ("zopfli=1,fast=0,filters=0+1+9", "apng")]
         seeds = [0] + [1 + rng.randrange(1 << 30) for _ in range(3)]
         watchdog = 600
     tmp = tempfile.mkdtemp(prefix="oxiverif-c16-")
     jobs = []
     try:
         files = {}
-        for kind in ("png", "apng"):
+        for kind in ("png", "apng", "big"):
             ins = make_inputs(rng, kind)
             files[kind] = os.path.join(tmp, kind + ".txt")
             open(files[kind], "w").write("\n".join(x.hex() for x in ins) + "\n")
@@ -72,13 +82,16 @@ def run(rep):
                                 continue
                             jobs.append((site, th, cc, o, kind, sd))
 
+        # very large input: outside caller on a wide pool, and from inside a one-thread pool
+        jobs.append(("plain", 16, 1, "preset=0", "big", 0))
+        jobs.append(("install", 1, 1, "preset=0", "big", 0))
         hangs = []
 
         def work(job):
             site, th, cc, o, kind, sd = job
             if len(hangs) >= 3:
                 return job, -1000, "", "skipped"
-            cmd = [exe, site, str(th), str(cc), "2", str(sd), o, files[kind]]
+            cmd = [exe, site, str(th), str(cc), "1" if kind == "big" else "2", str(sd), o, files[kind]]
             try:
                 p = subprocess.run(cmd, stdout=subprocess.PIPE, stderr=subprocess.PIPE, timeout=watchdog)
                 return job, p.returncode, p.stdout.decode(errors="replace"), p.stderr.decode(errors="replace")[-400:]
@@ -125,8 +138,9 @@ def run(rep):
             kv = dict(x.split("=") for x in head.split()[1:])
             if kv.get("pool_ok") != "1":
                 rep.violation("C16:pool-unusable", f"the pool did not execute ordinary work after the calls: {site}, pool {th}", desc)
-            if int(kv.get("calls", 0)) != 2 * cc + 1:
-                rep.violation("C16:calls-lost", f"{kv.get('calls')} of {2 * cc + 1} calls were made: {site}, pool {th}", desc)
+            rounds = 1 if kind == "big" else 2
+            if int(kv.get("calls", 0)) != rounds * cc + 1:
+                rep.violation("C16:calls-lost", f"{kv.get('calls')} of {rounds * cc + 1} calls were made: {site}, pool {th}", desc)
             if kv.get("errs") != "0":
                 rep.notes.append(f"{kv.get('errs')} calls returned an error in {desc['cmd']}")
             started = 0
